@@ -101,7 +101,14 @@ pub fn lane_main(args: &Args) -> i32 {
             break;
         }
         let sc = generate(&spec, &args.tier, args.seed, r);
-        let out = run_scenario(&mut ctx, &spec, &sc, &format!("{}", r));
+        let mut out = run_scenario(&mut ctx, &spec, &sc, &format!("{}", r));
+        if out.harness.is_some() {
+            // an environment hiccup (fork failure, a worker lost) is retried once with fresh workers before it counts
+            ctx.workers.clear();
+            ctx.worker_clock.clear();
+            std::thread::sleep(std::time::Duration::from_millis(200));
+            out = run_scenario(&mut ctx, &spec, &sc, &format!("{}x", r));
+        }
         evaluations += out.subruns.max(1);
         steps += out.steps;
         for (k, v) in &out.faults {
@@ -355,7 +362,15 @@ pub fn orchestrate(args: &Args) -> i32 {
     };
     if spec.engine == "sysim" || matches!(spec.id, "C01" | "C14" | "C16" | "C18") {
         // seam self-test before anything is believed: a failure is a harness error, never a violation
-        match sysim::selftest(&args.workers, &scratch_base().join("selftest")) {
+        let mut st = sysim::selftest(&args.workers, &scratch_base().join("selftest"));
+        for _ in 0..2 {
+            if st.is_ok() {
+                break;
+            }
+            std::thread::sleep(std::time::Duration::from_millis(500));
+            st = sysim::selftest(&args.workers, &scratch_base().join("selftest"));
+        }
+        match st {
             Ok(_) => {}
             Err(e) => {
                 eprintln!("HARNESS-ERROR: ptrace seam self-test failed: {e}");
